@@ -99,7 +99,7 @@ def params_strategy():
 def error_strategy():
     data = st.one_of(st.just({'absent': True}), st.just({'value': None}), st.builds(lambda v: {'value': v}, jg.json_value(8)))
     code = st.one_of(
-        st.sampled_from([0, 1, -1, -32700, -32600, -32601, -32602, -32603, -32000, -32050, -32099, 2001, 2002, 2003, 2004, 3001, 2**31, 10**30]),
+        st.sampled_from([0, 1, -1, -32700, -32600, -32601, -32602, -32603, -32000, -32050, -32099, 2001, 2002, 2003, 2004, 2005, 2005, 3001, 2**31, 10**30]),
         jg.integers(),
     )
     message = st.one_of(st.sampled_from(['', 'm', 'Method not found']), jg.strings())
@@ -155,6 +155,9 @@ def program_strategy():
         return {'kind': 'batch_program', 'target': target, 'initial': items, 'ops': ops}
 
     def for_target(target, item):
+        return st.builds(lambda spec, strict: {**spec, 'strict': strict}, _for_target(target, item), st.sampled_from([True, True, False]))
+
+    def _for_target(target, item):
         op = st.one_of(
             st.builds(lambda x: {'op': 'append', 'items': [x]}, item),
             st.builds(lambda xs: {'op': 'extend', 'items': xs}, st.lists(item, max_size=3)),
@@ -198,7 +201,7 @@ class C05(Check):
     required_classes = ['request', 'response/result', 'response/error', 'error', 'batch_request', 'batch_response', 'batch_error',
                         'error_cls/PlainBase', 'error_cls/IndepBase', 'edge/null-result', 'edge/absent-data', 'edge/null-data',
                         'edge/empty-params', 'edge/code-0', 'edge/empty-message', 'batch_request/empty', 'batch_program/request', 'batch_program/response',
-                        'batch_program/grown-after-serialisation']
+                        'batch_program/grown-after-serialisation', 'batch_program/not-strict']
 
     def strategy(self, tier: str):
         ecls = st.sampled_from(ERROR_CLS)
@@ -221,12 +224,16 @@ class C05(Check):
             {'kind': 'response', 'response': {'id': 1, 'result': None}, 'error_cls': 'JsonRpcError'},
             {'kind': 'response', 'response': {'id': 1, 'error': {'cls': 'JsonRpcError', 'code': 0, 'message': '', 'data': {'value': None}}}, 'error_cls': 'JsonRpcError'},
             {'kind': 'error', 'error': {'cls': 'JsonRpcError', 'code': 1, 'message': '', 'data': {'absent': True}}, 'error_cls': 'PlainBase'},
+            {'kind': 'error', 'error': {'cls': 'JsonRpcError', 'code': 2005, 'message': 'm', 'data': {'absent': True}}, 'error_cls': 'JsonRpcError'},
+            {'kind': 'response', 'response': {'id': 1, 'error': {'cls': 'Custom2005', 'code': None, 'message': None, 'data': {'absent': True}}}, 'error_cls': 'PlainBase'},
             {'kind': 'batch_request', 'requests': []},
             {'kind': 'batch_response', 'responses': [{'id': 1, 'error': {'cls': 'JsonRpcError', 'code': 12345, 'message': 'm', 'data': {'absent': True}}}], 'error_cls': 'PlainBase'},
             {'kind': 'batch_response', 'responses': [{'id': 1, 'error': {'cls': 'IndepA', 'code': None, 'message': None, 'data': {'absent': True}}}], 'error_cls': 'IndepBase'},
             {'kind': 'batch_program', 'target': 'request', 'initial': [{'method': 'm', 'params': none, 'id': 1}], 'ops': [
                 {'op': 'serialise', 'how': 'to_json'}, {'op': 'extend', 'items': [{'method': 'n', 'params': none, 'id': 2}]}, {'op': 'serialise', 'how': 'JSONEncoder'},
                 {'op': 'append', 'items': [{'method': 'o', 'params': none, 'id': None}]}, {'op': 'read'}]},
+            {'kind': 'batch_program', 'target': 'request', 'strict': False, 'initial': [{'method': 'm', 'params': none, 'id': 1}, {'method': 'n', 'params': none, 'id': None}],
+             'ops': [{'op': 'read'}, {'op': 'append', 'items': [{'method': 'o', 'params': none, 'id': 'x'}]}, {'op': 'read'}]},
             {'kind': 'batch_program', 'target': 'response', 'initial': [], 'ops': [
                 {'op': 'serialise', 'how': 'server.JSONEncoder'}, {'op': 'append', 'items': [{'id': 1, 'result': None}]}, {'op': 'serialise', 'how': 'to_json'},
                 {'op': 'extend', 'items': [{'id': 2, 'result': 1}, {'id': 3, 'error': {'cls': 'JsonRpcError', 'code': 5, 'message': 'm', 'data': {'absent': True}}}]}]},
@@ -241,7 +248,8 @@ class C05(Check):
         target = spec['target']
         build, wire = (build_request, wire_request) if target == 'request' else (build_response, wire_response)
         cls = pjrpc.BatchRequest if target == 'request' else pjrpc.BatchResponse
-        obj = cls(*[build(x) for x in spec['initial']])
+        # strict=False: the batch does not refuse duplicate ids (none are generated here) - everything else is the same object
+        obj = cls(*[build(x) for x in spec['initial']], strict=spec.get('strict', True))
         model = [wire(x) for x in spec['initial']]
         discs: List[Disc] = []
         serialised_before_growth = False
@@ -284,7 +292,7 @@ class C05(Check):
                     discs.append(Disc("C05/batch_program/request/is_notification", f"step {n}: {obj.is_notification} for {jg.short(model)}"))
         check('end', 'to_json')
         check('end', 'JSONEncoder')
-        classes = ['batch_program', f'batch_program/{target}']
+        classes = ['batch_program', f'batch_program/{target}'] + ([] if spec.get('strict', True) else ['batch_program/not-strict'])
         if serialised_before_growth:
             classes.append('batch_program/grown-after-serialisation')
         return Outcome(discs, serialised_before_growth, classes)
